@@ -184,6 +184,7 @@ type guardAtom struct {
 	Cond ssa.Value
 	Pol  bool
 	At   ssa.Instruction
+	Succ int // index of the successor of At's block on which the guard holds
 }
 
 // guardsOf returns the branch outcomes that necessarily hold when i executes:
@@ -211,7 +212,7 @@ func guardsOf(i ssa.Instruction) []guardAtom {
 				}
 				break
 			}
-			out = append(out, guardAtom{cond, pol, ifi})
+			out = append(out, guardAtom{cond, pol, ifi, si})
 		}
 	}
 	return out
@@ -235,7 +236,7 @@ func controlGuards(i ssa.Instruction) []guardAtom {
 			}
 			break
 		}
-		out = append(out, guardAtom{cond, pol, br.Block.Instrs[len(br.Block.Instrs)-1]})
+		out = append(out, guardAtom{cond, pol, br.Block.Instrs[len(br.Block.Instrs)-1], br.Succ})
 	}
 	return out
 }
